@@ -13,6 +13,8 @@ CHECKS = {
          "generated-input search against a closed-form oracle that decides enclosure and tightness at once; one open known finding (ellipsoid_aabb)"),
  "C09": ("property-based testing (Hypothesis): C01 scenes vs original GJK (points, consistency, optimality) and Nesterov variants (value); iteration helpers on fresh objects",
          "generated-input search against construction witnesses / certified reference GJK; two open known findings for use_nesterov_acceleration=True"),
+ "C14": ("model-based testing: Hypothesis-generated update_pose/query histories vs a freshly constructed collider at the last pose",
+         "generated operation sequences (poses as fresh arrays or stack items) against a fresh-object oracle after every query; held on everything explored"),
  "C05": ("model-based testing: Hypothesis-generated insertion/query histories vs list model with brute-force overlap; jit and boundscheck modes",
          "generated operation sequences against a reference model with structural invariants after every step; held on everything explored"),
 }
